@@ -451,6 +451,22 @@ def run(ctx):
     for (s, hx), g in list(zip(files, dumps))[:2]:
         ctx.sample({"source": s[:120], "bytes": hx[:120], "dump": show(g)[:400]})
 
+    # ---- an End-of-Track written in mid-track (raw bytes): the dump goes on to the end of the chunk - every later event and every
+    #      later track is still listed (the container, not a meta event inside it, says where a track ends) ----
+    eots = [("TR=1 c4 DirectSMF($FF,$2F,$00) d4 e4 TR=2 g1", 4, 3), ("c DirectSMF($FF,$2F,$00) d", 2, 1),
+            ("TR(2) DirectSMF($FF,$2F,$00) c d e TR(1) f", 4, 3), ("l8 c d DirectSMF($FF,$2F,$00) e DirectSMF($FF,$2F,$00) f", 4, 1)]
+    comp = compile_sources(ctx, [e[0] for e in eots])
+    want = {e[0]: e for e in eots}
+    files = [(s_, hx) for s_, hx, tb in comp]
+    for (s_, hx), g in zip(files, dump_and_check(ctx, files, "raw_end_of_track", oracle=False)):
+        rows = show(g).split("\n")
+        notes, tracks = sum(1 for r in rows if " NoteOn(" in r), sum(1 for r in rows if r.startswith("TRACK("))
+        ctx.count("raw_end_of_track", s_)
+        if (notes, tracks) != (want[s_][1], want[s_][2]) or any("[ERROR]" in r for r in rows):
+            ctx.oracle_fail("an End-of-Track written in mid-track: not every later event / track is listed", "dump\t" + hx,
+                            "%d note lines, %d tracks%s" % (notes, tracks, ", error lines" if any("[ERROR]" in r for r in rows) else ""),
+                            "%d note lines, %d tracks, no error line" % (want[s_][1], want[s_][2]), input_text=s_)
+
     # ---- TIME(m:b:t) round trip ----
     progs = [time_program(rng) for _ in range(200 if quick else 6000)]
     comp = compile_sources(ctx, [p[0] for p in progs])
